@@ -2,6 +2,17 @@
   C14 — per-cycle statistics and phase alignment use exactly each cycle's samples.
   Property theorems only (helper lemmas: Proofs/Lemmas/CycleStats*.lean, Maps*.lean).
   All statements are about the executable model `EmdModel.CycleStats`.
+
+  Scope notes (review B, item 6):
+  * `phaseAlign_affine` speaks about a call that returned; WHEN it returns is `phaseAlign_returns_iff`
+    (`AlignAccepts`), and `alignCycle_one_sample` shows that a one-sample cycle is accepted (all-NaN column).
+  * Only `interp_kind='linear'`, `mode='cycle'` are modelled; the other interpolation kinds and the
+    "within interpolation error" clause are instance checks (stream phase_align of c14.py).
+  * bin_by_phase: the MEANS (unweighted and weighted) are modelled and proved.  Its variance output
+    with `weights=`, `variance_metric='std'/'sem'` are not modelled; three defects of the real code there
+    ('sem' always raises ValueError; weights with 1-D x raise IndexError; weighted variance is
+    avg(x − avg²)) are outside the property (it promises the bin means), written down in c14.py TRUSTED
+    and recorded on every run by stream `bin_by_phase_outside` as observed-not-claimed.
 -/
 import Proofs.Lemmas.CycleStatsInterp
 
@@ -151,6 +162,96 @@ theorem phaseAlign_affine (ip x : List Rat) (cv : List Int) (bins : List Rat)
       injection hcol with hcol
       rw [hget, ← hcol]
 
+/-- The inputs `phase_align(ip, x, cycles=cv)` accepts (mode='cycle', linear): a non-empty label vector
+    as long as the phase, a quantity as long as the phase, and at least ONE sample for every label
+    0..max (a skipped label makes `interp1d` raise on the empty selection).  A one-sample cycle is
+    accepted (see `alignCycle_one_sample`: its column is all-NaN), so are repeated / unsorted phases. -/
+def AlignAccepts (ip x : List Rat) (cv : List Int) : Prop :=
+  cv ≠ [] ∧ cv.length = ip.length ∧ ip.length = x.length ∧ ∀ k, k < nLabels cv → mapCycleToSamples cv k ≠ []
+
+/-- WHEN the call returns (the hypothesis `h` of `phaseAlign_affine` made explicit): exactly on
+    `AlignAccepts`; then there is one column per label and one entry per phase bin in every column.
+    Every other input — empty label vector, mismatched lengths, a label without samples — is rejected
+    with ValueError (no partial result). -/
+theorem phaseAlign_returns_iff (ip x : List Rat) (cv : List Int) (bins : List Rat) :
+    (AlignAccepts ip x cv → ∃ cols, phaseAlign ip x cv bins = .ok cols ∧ cols.length = nLabels cv ∧
+        ∀ col ∈ cols, col.length = bins.length) ∧
+    (¬ AlignAccepts ip x cv → phaseAlign ip x cv bins = .error .valueError) := by
+  have hrange : cv.length = ip.length → ip.length = x.length → ∀ k, ∀ i ∈ mapCycleToSamples cv k, i < ip.length ∧ i < x.length := by
+    intro h1 h2 k i hi
+    have hc := (cycle_samples_exact cv k i).mp hi
+    have : i < cv.length := by
+      rcases Nat.lt_or_ge i cv.length with h | h
+      · exact h
+      · rw [List.getElem?_eq_none h] at hc; cases hc
+    omega
+  constructor
+  · rintro ⟨hne, hl1, hl2, hall⟩
+    have h1 : cv.isEmpty = false := by cases cv <;> simp_all
+    have hstep : ∀ e ∈ (List.range (nLabels cv)).map (fun k => alignCycle ip x (mapCycleToSamples cv k) bins),
+        ∃ a, e = Except.ok a := by
+      intro e he
+      obtain ⟨k, hk, rfl⟩ := List.mem_map.mp he
+      obtain ⟨col, hcol, _⟩ := (alignCycle_cases ip x (mapCycleToSamples cv k) bins
+        (fun i hi => (hrange hl1 hl2 k i hi).1) (fun i hi => (hrange hl1 hl2 k i hi).2)).2
+        (hall k (List.mem_range.mp hk))
+      exact ⟨col, hcol⟩
+    obtain ⟨cols, hcols⟩ := sequence_all_ok _ hstep
+    obtain ⟨hlen, hget⟩ := sequence_ok_getElem? _ cols hcols
+    refine ⟨cols, ?_, by simpa using hlen, ?_⟩
+    · unfold phaseAlign
+      rw [if_neg (by simp [h1]), if_neg (by omega)]
+      exact hcols
+    · intro col hcol
+      obtain ⟨k, hk, hkc⟩ := List.getElem_of_mem hcol
+      have hk' : k < nLabels cv := by simpa [hlen] using hk
+      obtain ⟨a, ha, hka⟩ := hget k (alignCycle ip x (mapCycleToSamples cv k) bins)
+        (by simp [List.getElem?_map, List.getElem?_range hk'])
+      obtain ⟨col', hcol', hl'⟩ := (alignCycle_cases ip x (mapCycleToSamples cv k) bins
+        (fun i hi => (hrange hl1 hl2 k i hi).1) (fun i hi => (hrange hl1 hl2 k i hi).2)).2 (hall k hk')
+      rw [hcol'] at ha
+      injection ha with ha
+      rw [List.getElem?_eq_getElem hk, hkc] at hka
+      injection hka with hka
+      rw [hka, ← ha]; exact hl'
+  · intro hna
+    unfold phaseAlign
+    by_cases h0 : cv = []
+    · subst h0; simp
+    have h1 : cv.isEmpty = false := by cases cv <;> simp_all
+    rw [if_neg (by simp [h1])]
+    by_cases hl : cv.length ≠ ip.length ∨ ip.length ≠ x.length
+    · rw [if_pos hl]
+    rw [if_neg hl]
+    have hl1 : cv.length = ip.length := by omega
+    have hl2 : ip.length = x.length := by omega
+    have hex : ∃ k, k < nLabels cv ∧ mapCycleToSamples cv k = [] := by
+      apply Classical.byContradiction
+      intro hc
+      apply hna
+      refine ⟨h0, hl1, hl2, fun k hk hek => hc ⟨k, hk, hek⟩⟩
+    obtain ⟨k, hk, hek⟩ := hex
+    apply sequence_error
+    · intro e he
+      obtain ⟨j, _, rfl⟩ := List.mem_map.mp he
+      have hc := alignCycle_cases ip x (mapCycleToSamples cv j) bins
+        (fun i hi => (hrange hl1 hl2 j i hi).1) (fun i hi => (hrange hl1 hl2 j i hi).2)
+      by_cases hj : mapCycleToSamples cv j = []
+      · exact Or.inr (hc.1 hj)
+      · obtain ⟨col, hcol, _⟩ := hc.2 hj
+        exact Or.inl ⟨col, hcol⟩
+    · refine ⟨alignCycle ip x (mapCycleToSamples cv k) bins, List.mem_map.mpr ⟨k, List.mem_range.mpr hk, rfl⟩, ?_⟩
+      exact (alignCycle_cases ip x (mapCycleToSamples cv k) bins
+        (fun i hi => (hrange hl1 hl2 k i hi).1) (fun i hi => (hrange hl1 hl2 k i hi).2)).1 hek
+
+/-- A cycle with a single sample is NOT rejected: linear interpolation needs two points, scipy
+    accepts one and answers NaN everywhere — the column is all-missing (so the `2 ≤ length`
+    hypothesis of `alignCycle_affine` is needed for the values, not for the call to return). -/
+theorem alignCycle_one_sample (ip x : List Rat) (i : Nat) (bins : List Rat)
+    (h1 : i < ip.length) (h2 : i < x.length) :
+    alignCycle ip x [i] bins = .ok (bins.map fun _ => none) := by
+  simp [alignCycle, gather, List.getElem?_eq_getElem h1, List.getElem?_eq_getElem h2, sortPts, insertPt, linInterp]
+
 /-! ## phase binning -/
 
 /-- np.digitize on strictly increasing edges: index b+1 means the half-open bin [e_b, e_{b+1}) -/
@@ -223,6 +324,16 @@ example : ([(0, 1), (1, 3), (3, 7)] : List (Rat × Rat)).Pairwise fun p q => p.1
   simp [List.pairwise_cons]; decide
 example : ∀ p ∈ ([(0, 1), (1, 3), (3, 7)] : List (Rat × Rat)), p.2 = 2 * p.1 + 1 := by
   intro p hp; simp at hp; rcases hp with rfl | rfl | rfl <;> grind
+-- `AlignAccepts` is satisfiable (two cycles, a gap) and refutable (label 1 skipped -> ValueError)
+example : AlignAccepts [1, 2, 3, 4, 5] [0, 0, 0, 0, 0] [0, 0, -1, 1, 1] := by
+  refine ⟨by decide, rfl, rfl, ?_⟩
+  intro k hk
+  have : k = 0 ∨ k = 1 := by have : nLabels [0, 0, -1, 1, 1] = 2 := by decide
+                             omega
+  rcases this with rfl | rfl <;> decide
+example : ¬ AlignAccepts [1, 2, 3] [0, 0, 0] [0, 2, 2] := by
+  rintro ⟨_, _, _, h⟩
+  exact h 1 (by decide) (by decide)
 -- strictly increasing edges with a last bin
 example : ([0, 1, 2] : List Rat).Pairwise (· < ·) := by simp [List.pairwise_cons]; decide
 
